@@ -59,7 +59,14 @@ class MNode:
         self.a = a if a is not None else {}
 
     def clone(self):
-        return MNode(self.label, self.kind, self.uuid, self.parent, copy.deepcopy(self.a))
+        a = copy.deepcopy(self.a)
+        if isinstance(a.get("aux"), dict):
+            # a durable copy: one AuxData object listed under two names is two tables in a file
+            a["aux"] = {k: copy.deepcopy(v) for k, v in self.a["aux"].items()}
+        if isinstance(a.get("se"), dict):
+            # likewise one expression object stored at two offsets
+            a["se"] = {k: copy.deepcopy(v) for k, v in self.a["se"].items()}
+        return MNode(self.label, self.kind, self.uuid, self.parent, a)
 
 
 class Model:
